@@ -909,7 +909,13 @@ class BackendZ3(Backend):
     @condom
     def _primitive_from_model(self, model, expr):
         v = model.eval(expr, model_completion=True)
-        return self._abstract_to_primitive(v.ctx.ctx, v.ast)
+        try:
+            return self._abstract_to_primitive(v.ctx.ctx, v.ast)
+        except ClaripyError:
+            # Z3's model evaluator sometimes hands back a ground term it did not reduce to a value (seen with
+            # str.indexof and offsets >= 2**63); the simplifier finishes the evaluation.
+            v = z3.simplify(v)
+            return self._abstract_to_primitive(v.ctx.ctx, v.ast)
 
     #
     # New, model-driven solves
